@@ -413,7 +413,7 @@ func c09NewPending(t *core.T, wd *sim.World, m *pendModel, v *sim.View) *wire.Ms
 	kind := t.R.Pick(5, 3, 3) // wallet coin spend, stranger→wallet, child of pending
 	switch kind {
 	case 0, 1:
-		for _, o := range v.Outs {
+		for _, o := range v.SortedOuts() {
 			if o.Spent || !o.HasHash || o.Value < 1000 || usedByPending[o.OP] || !v.Mature(o) {
 				continue
 			}
